@@ -2610,13 +2610,13 @@ func (rl *clientConnReadLoop) handleResponse(cs *clientStream, f *MetaHeadersFra
 		res.Body = compress.NewGzipReader(res.Body)
 		res.Uncompressed = true
 	} else if cs.cc.t.AutoDecompression {
-		contentEncoding := res.Header.Get("Content-Encoding")
-		if contentEncoding != "" {
+		// Leave the response alone unless the encoding is one we can decode.
+		if cr := compress.NewCompressReader(res.Body, res.Header.Get("Content-Encoding")); cr != nil {
 			res.Header.Del("Content-Encoding")
 			res.Header.Del("Content-Length")
 			res.ContentLength = -1
 			res.Uncompressed = true
-			res.Body = compress.NewCompressReader(res.Body, contentEncoding)
+			res.Body = cr
 		}
 	}
 
